@@ -31,6 +31,8 @@ pub enum Case {
     Translated { lang: String, words: Vec<W> },
     /// a word-free line: identical observation in every language
     WordFree { text: String },
+    /// an operator word of `lang` against the operator symbol
+    OpWord { lang: String, word: String, op: char, form: u8 },
 }
 
 fn const_words(lang: &str, id: u64) -> Vec<String> {
@@ -342,6 +344,23 @@ impl Prop for C19 {
             },
         ));
         f.push(Family::new(
+            "operator-word-synonyms",
+            Mode::Full,
+            "'5 W 3', '12 W 4 W 2' and 'x = 7 / x W 2' for every operator word W (every alias of config.json that stands for + - * /) of EVERY configured language, English included: the value of the same line written with the operator symbol",
+            move |ch| {
+                let langs = crate::spec::spec().languages.clone();
+                let l = ch.pick(&langs).clone();
+                let op = *ch.pick(&['+', '-', '*', '/']);
+                let words = op_words(&l, op);
+                if words.is_empty() {
+                    return None;
+                }
+                let w = ch.pick(&words).clone();
+                let form = ch.choose(3);
+                Some(Case::OpWord { lang: l, word: w, op, form: form as u8 })
+            },
+        ));
+        f.push(Family::new(
             "word-free-units",
             Mode::Full,
             "unit arithmetic without connective words: 'x A + y B', 'x A - y B', 'x A / y B', 'x A * 2' for every ordered same-kind pair of the 33 units, the unit names written as configured, UPPER-CASE and Capitalised (unit names are not words of a language): identical observation in every configured language",
@@ -390,6 +409,35 @@ impl Prop for C19 {
     fn exec(&self, ctx: &mut Ctx, case: &Case) -> Verdict {
         let calc = ctx.calc(&Cfg::default());
         match case {
+            Case::OpWord { lang, word, op, form } => {
+                let mk = |o: &str| match form {
+                    0 => format!("5 {} 3", o),
+                    1 => format!("12 {} 4 {} 2", o, o),
+                    _ => format!("x = 7\nx {} 2", o),
+                };
+                let (tw, ts) = (mk(word), mk(&op.to_string()));
+                let a = obs::eval(calc, lang, &tw);
+                let b = obs::eval(calc, lang, &ts);
+                let mut v = Verdict { input: format!("[{}] {}", lang, tw.replace('\n', " \\n ")), class: "translation-compared", compared: true, expected: format!("{} -> {}", ts.replace('\n', " \\n "), b.brief()), observed: a.brief(), evals: 2, ..Default::default() };
+                let last = |r: &Run| match r {
+                    Run::Done(o) => o.slots.last().cloned(),
+                    _ => None,
+                };
+                match (last(&a), last(&b)) {
+                    (Some(Slot::Ok { val: x, .. }), Some(Slot::Ok { val: y, .. })) if obs::val_close(&x, &y, 1e-12) => {}
+                    (_, Some(Slot::Ok { .. })) => {
+                        if let Run::Panic(p) = &a {
+                            v.site = Some(p.site.clone());
+                        }
+                        v.violation = Some(format!("the operator word {:?} of language {} does not act like '{}'", word, lang, op));
+                    }
+                    _ => {
+                        v.class = "not-evaluable";
+                        v.compared = false;
+                    }
+                }
+                v
+            }
             Case::WordFree { text } => {
                 let mut v = Verdict { input: text.replace('\n', " \\n "), class: "languages-compared", compared: true, expected: "identical observation in every language".into(), ..Default::default() };
                 let base = obs::eval(calc, "en", text);
